@@ -23,7 +23,7 @@ var known = ev.Matcher[Case]{
 
 const rule = "real CLI on SQLite files. migrate apply: directories of 1-3 files x 1-3 statements (journal INSERTs; the first statement creates the journal table) x a failing statement at every (file, statement) position or none, failing either at once (missing table) or on a foreign-key violation with enforcement on (_fk=1: immediate without a transaction, found at commit inside one) " +
 	"x tx-mode {file, all, none} x per-file atlas:txmode directives x optional count argument; directories with 1-3 checkpoint files (a fresh database starts at the last one) with a failure at every position from there on; every configuration also with --dry-run, and --dry-run --baseline <version> on a database that already holds a table. " +
-	"schema apply: populated tables and desired schemas whose plan succeeds on an early statement and fails on the data later (unique index over duplicates, NOT NULL over NULLs), with --auto-approve and with --dry-run. " +
+	"schema apply: populated tables and desired schemas whose plan succeeds on an early statement and fails on the data later (unique index over duplicates, NOT NULL over NULLs), with --auto-approve, approved at the confirmation prompt (Enter on standard input) and with --dry-run. " +
 	"Oracle (independent connection; journal rows in order, revision rows version/applied/total/error, schema objects; timestamps and hashes masked): file mode = state after the last completely applied file; all mode = state before the command; " +
 	"none mode = exactly the successful prefix recorded with the error; after fixing the file and re-hashing the re-run reaches the state of a failure-free run (also with two failing statements in one file, repaired one at a time: the re-run in between stops at the second one exactly as a first run would); schema apply failure and every --dry-run leave the full data dump unchanged. " +
 	"non-trivial = the injected failure fired with >=1 statement before it (or a dry-run / schema-apply scenario); distinct key = (shape, position, mode, directives, count, dry-run)"
@@ -142,6 +142,10 @@ func enumerate(thorough bool, f func(Case) bool) {
 	}
 	for v := 0; v < 3; v++ {
 		for _, dry := range []bool{false, true} {
+			// the same plan approved at the confirmation prompt instead of with --auto-approve
+			if !dry && !f(Case{Schema: true, Variant: v, FailF: -1, Prompt: true}) {
+				return
+			}
 			if !f(Case{Schema: true, Variant: v, DryRun: dry, FailF: -1}) {
 				return
 			}
@@ -205,7 +209,7 @@ func TestCheck(t *testing.T) {
 		}
 		col.Class(cls)
 		if out.Fired || c.DryRun || c.Schema {
-			col.NonTrivial(fmt.Sprintf("%v|%d.%d|%s|%v|%d|%v|%v.%d|%d|%v|%d", c.Shape, c.FailF, c.FailJ, c.Mode, c.Directives, c.Count, c.DryRun, c.Schema, c.Variant, c.FailKind, c.Ckpt, c.Fail2J) + fmt.Sprint(c.CRLF, c.Baseline))
+			col.NonTrivial(fmt.Sprintf("%v|%d.%d|%s|%v|%d|%v|%v.%d|%d|%v|%d", c.Shape, c.FailF, c.FailJ, c.Mode, c.Directives, c.Count, c.DryRun, c.Schema, c.Variant, c.FailKind, c.Ckpt, c.Fail2J) + fmt.Sprint(c.CRLF, c.Baseline, c.Prompt))
 		}
 		col.Sample(cls, c)
 		return err
